@@ -24,6 +24,7 @@ LEVEL_TEXT = (
     "all line permutations for small diagrams, dotted module names, noise outside the tags; tag-less files observed to be rejected with PumlParsingError."
 )
 LEVEL_NOTE = "The generator's rendering of the documented subset is the trusted base (refmodel/puml.py); constructs outside that subset (indentation, names with spaces, 'component n as a', self-arrows) are not generated."
+LEVEL_TEXT += ' Diagrams are also saved with CRLF / CR line endings and rewritten at the same path with the same timestamps; component names include non-ASCII identifiers. KNOWN FINDING nonword-identifier-component (see KNOWN_FINDINGS.txt).'
 RULE = (
     "an evaluation = one PumlParser.parse call judged by the monitor; non-trivial = diagram with >= 2 arrows or an alias; distinct = distinct diagram texts"
 )
